@@ -26,7 +26,7 @@
 (* received: env.LoadBuf / env.MutateBuf / env.MutateScalar /              *)
 (* env.MutatePoint / env.ForgetPoint never touch priv / pub.               *)
 (***************************************************************************)
-EXTENDS Schnorr, FiniteSets
+EXTENDS Schnorr, Ecdsa, Rfc6979, H2C, FiniteSets
 
 Uninit == <<-1>>          \* a byte tuple that is no encoding: the slot holds a zero-value Point
 Nil    == <<-1>>          \* no key object
@@ -47,6 +47,22 @@ SetBuf(st, i, b) == [st EXCEPT !.buf[i] = b]
 
 (* every operand must be an initialised Point, else the call panics before touching anything *)
 NeedValid(st, slots, result) == IF \A i \in slots : IsValidSlot(st, i) THEN result ELSE Panic(st)
+
+(* ---- signatures live in byte buffers ---- *)
+EncName(c) == CASE c = 0 -> "asn1" [] c = 1 -> "compact" [] c = 2 -> "recoverable" [] OTHER -> "invalid"
+EncodeSig(c, r, s, v) == CASE c = 0 -> BuildDerSig(r, s) [] c = 1 -> BuildCompact(r, s) [] OTHER -> BuildCompactRec(r, s, v)
+
+(* RFC 6979 deterministic ECDSA (SHA-256) with the candidate loop: the i-th generator output is the nonce iff it is in [1, n) as read *)
+(* (leftmost qlen = 8 W bits) and the signature it gives is not degenerate.  <<"sig", r, s, v>>                                      *)
+RECURSIVE Rfc6979SignFrom(_, _, _)
+Rfc6979SignFrom(d, e, i) ==
+  LET t == Candidate(I2OSP(d, W), I2OSP(e, W), i)
+      k == OS2IP(SubSeq(t, 1, W))
+  IN  IF BigEq(k, 0) \/ ~(k \prec N) THEN Rfc6979SignFrom(d, e, i + 1)
+      ELSE LET sg == SignWithNonce(d, e, k) IN IF sg[1] = "retry" THEN Rfc6979SignFrom(d, e, i + 1) ELSE sg
+Rfc6979Sign(d, e) == Rfc6979SignFrom(d, e, 1)
+
+AuxZero == Rep(0, 32)          \* the replayer's entropy reader for BIP-340 signing delivers 32 zero bytes
 
 PointOps1 == {"pt.Double", "pt.Negate", "pt.Set"}
 PointOps2 == {"pt.Add", "pt.Subtract"}
@@ -142,6 +158,9 @@ Step(st, ev) ==
               IF (x \prec P) /\ (y \prec P) /\ OnCurveXY(x, y) THEN Ok(SetPt(st, ev.v, <<x, y>>)) ELSE Err(st)
     [] ev.op = "pt.Recover" ->          \* RecoverPoint(scalar slot, recovery id c)
          LET d == RecoverPointD(ScOf(st, ev.s), ev.c) IN IF d[1] = "ok" THEN Ok(SetPt(st, ev.v, d[2])) ELSE Err(st)
+    [] ev.op = "pt.SetUniform" ->       \* SetUniformBytes(buf[b]), W..2W bytes: the receiver may be a zero-value Point, it is overwritten
+         LET b == st.buf[ev.b] IN
+         IF Len(b) < W \/ Len(b) > 2 * W THEN Panic(st) ELSE Ok(SetPt(st, ev.v, SetUniformBytesD(b)))
     (* ---- BIP-340 key objects ---- *)
     [] ev.op = "skey.New" ->
          LET b == st.buf[ev.b] IN
@@ -161,8 +180,37 @@ Step(st, ev) ==
          IF st.pub = Nil THEN Panic(st) ELSE Ok([st EXCEPT !.spub = I2OSP(DecodeB(st.pub)[2][1], W), !.spriv = Nil])
     [] ev.op = "spub.Bytes" -> IF st.spub = Nil THEN Panic(st) ELSE Ok(SetBuf(st, ev.b, st.spub))
     [] ev.op = "spub.Point" -> IF st.spub = Nil THEN Panic(st) ELSE Ok(SetPt(st, ev.v, LiftXEven(OS2IP(st.spub))[2]))   \* always the even-y point
+    (* ---- signatures: produced into / read from byte buffers the caller keeps (and may scribble over) ---- *)
+    [] ev.op = "key.Sign" ->            \* PrivateKey.Sign(RFC6979SHA256(), buf[m], &ECDSAOptions{Encoding: c}) -> buf[b]
+         IF st.priv = Nil THEN Panic(st)
+         ELSE LET dg == st.buf[ev.m] IN
+              IF Len(dg) # W \/ ev.c \notin {0, 1, 2} THEN Err(st)
+              ELSE LET sg == Rfc6979Sign(OS2IP(st.priv), HashToScalarB(dg)[2]) IN Ok(SetBuf(st, ev.b, EncodeSig(ev.c, sg[2], sg[3], sg[4])))
+    [] ev.op = "key.Verify" ->          \* PublicKey.Verify(buf[m], buf[b], &ECDSAOptions{Encoding: c}): a predicate, nothing changes
+         IF st.pub = Nil THEN Panic(st)
+         ELSE OkR(st, IF VerifyEncoded(DecodeB(st.pub)[2], st.buf[ev.m], st.buf[ev.b], TRUE, W, EncName(ev.c), FALSE) THEN 1 ELSE 0)
+    [] ev.op = "key.Recover" ->         \* RecoverPublicKey(buf[m], ParseCompactRecoverableSignature(buf[b])): a NEW public-key object
+         LET p == ParseCompact(st.buf[ev.b], TRUE)  h == HashToScalarB(st.buf[ev.m]) IN
+         IF p[1] = "err" \/ h[1] = "err" THEN Err(st)
+         ELSE LET rq == Recover(h[2], p[2], p[3], p[4]) IN
+              IF rq[1] = "ok" THEN Ok([st EXCEPT !.pub = EncPt(rq[2]), !.priv = Nil]) ELSE Err(st)
+    [] ev.op = "btc.Verify" ->          \* bitcoin.VerifyASN1(pub, buf[m], buf[b]): BIP-66 envelope with sighash byte, low-s
+         IF st.pub = Nil THEN Panic(st)
+         ELSE LET sig == st.buf[ev.b] IN
+              OkR(st, IF IsBip66(sig) /\ VerifyEncoded(DecodeB(st.pub)[2], st.buf[ev.m], SubSeq(sig, 1, Len(sig) - 1), TRUE, W, "asn1", TRUE) THEN 1 ELSE 0)
+    [] ev.op = "key.PubASN1" ->         \* PublicKey.ASN1Bytes(): SubjectPublicKeyInfo of the uncompressed point
+         IF st.pub = Nil THEN Panic(st) ELSE Ok(SetBuf(st, ev.b, BuildSpki(st.pub)))
+    [] ev.op = "key.ParseASN1" ->       \* ParseASN1PublicKey(buf[b]): a NEW public-key object, or nothing
+         LET d == ParseSpki(st.buf[ev.b]) IN
+         IF d[1] = "ok" THEN Ok([st EXCEPT !.pub = EncPt(d[2]), !.priv = Nil]) ELSE Err(st)
+    [] ev.op = "skey.Sign" ->           \* SchnorrPrivateKey.Sign(32 zero bytes of entropy, buf[m]) -> buf[b]
+         IF st.spriv = Nil THEN Panic(st)
+         ELSE LET sg == SignB(st.spriv, st.buf[ev.m], AuxZero) IN IF sg[1] = "ok" THEN Ok(SetBuf(st, ev.b, sg[2])) ELSE Err(st)
+    [] ev.op = "spub.Verify" ->
+         IF st.spub = Nil THEN Panic(st) ELSE OkR(st, IF VerifyB(st.spub, st.buf[ev.m], st.buf[ev.b]) THEN 1 ELSE 0)
     (* ---- the caller (environment) ---- *)
     [] ev.op \in {"env.LoadBuf", "env.MutateBuf"} -> Ok(SetBuf(st, ev.b, ev.content))
+    [] ev.op = "env.AppendByte" -> Ok(SetBuf(st, ev.b, Append(st.buf[ev.b], 1)))           \* append(buf, 0x01): the caller grows a slice it may have been handed
     [] ev.op = "env.MutateScalar" -> Ok(SetSc(st, ev.s, SAdd(ScOf(st, ev.s), 1)))          \* s.Add(s, 1) on the caller's object
     [] ev.op = "env.MutatePoint"  -> NeedValid(st, {ev.p}, Ok(SetPt(st, ev.p, PAdd(PtOf(st, ev.p), GenPt))))
     [] ev.op = "env.ForgetPoint"  -> Ok([st EXCEPT !.pt[ev.p] = Uninit])                    \* the slot now holds a fresh zero-value Point
@@ -178,9 +226,32 @@ StateOK(st) ==
                        /\ st.spub = I2OSP(PMulG(OS2IP(st.spriv))[1], W)
   /\ st.spub # Nil => Len(st.spub) = W /\ LiftXEven(OS2IP(st.spub))[1]
 
-IsEnv(ev)      == ev.op \in {"env.LoadBuf", "env.MutateBuf", "env.MutateScalar", "env.MutatePoint", "env.ForgetPoint"}
+(* whatever a key object signs, the same key objects verify (every encoding) and recover; digests are the W-byte buffers of the pool *)
+SignOK(st) ==
+  /\ st.priv # Nil => \A i \in DOMAIN st.buf : Len(st.buf[i]) = W =>
+        LET e == HashToScalarB(st.buf[i])[2]  sg == Rfc6979Sign(OS2IP(st.priv), e)  q == DecodeB(st.pub)[2] IN
+        /\ sg[1] = "sig" /\ ~SGreaterThanHalfN(sg[3])
+        /\ \A c \in {0, 1, 2} : VerifyEncoded(q, st.buf[i], EncodeSig(c, sg[2], sg[3], sg[4]), TRUE, W, EncName(c), TRUE)
+        /\ Recover(e, sg[2], sg[3], sg[4]) = <<"ok", q>>
+  /\ st.spriv # Nil => \A i \in DOMAIN st.buf :
+        LET sg == SignB(st.spriv, st.buf[i], AuxZero) IN sg[1] = "ok" => VerifyB(st.spub, st.buf[i], sg[2])
+
+(* the same conditions, evaluated only for the objects that differ from a state `o` in which they are known to hold *)
+StateOKDelta(o, st) ==
+  /\ \A i \in DOMAIN st.pt : (i \notin DOMAIN o.pt \/ o.pt[i] # st.pt[i]) =>
+        (st.pt[i] = Uninit \/ (DecodeB(st.pt[i])[1] = "ok" /\ EncPt(DecodeB(st.pt[i])[2]) = st.pt[i]))
+  /\ \A i \in DOMAIN st.sc : (i \notin DOMAIN o.sc \/ o.sc[i] # st.sc[i]) => (Len(st.sc[i]) = W /\ (OS2IP(st.sc[i]) \prec N))
+  /\ (st.priv # o.priv \/ st.pub # o.pub) =>
+        /\ st.priv # Nil => Len(st.priv) = W /\ (OS2IP(st.priv) \prec N) /\ ~BigEq(OS2IP(st.priv), 0) /\ st.pub = EncPt(PMulG(OS2IP(st.priv)))
+        /\ st.pub # Nil => DecodeB(st.pub)[1] = "ok" /\ ~IsInf(DecodeB(st.pub)[2])
+  /\ (st.spriv # o.spriv \/ st.spub # o.spub) =>
+        /\ st.spriv # Nil => Len(st.spriv) = W /\ (OS2IP(st.spriv) \prec N) /\ ~BigEq(OS2IP(st.spriv), 0)
+                              /\ st.spub = I2OSP(PMulG(OS2IP(st.spriv))[1], W)
+        /\ st.spub # Nil => Len(st.spub) = W /\ LiftXEven(OS2IP(st.spub))[1]
+
+IsEnv(ev)      == ev.op \in {"env.LoadBuf", "env.MutateBuf", "env.AppendByte", "env.MutateScalar", "env.MutatePoint", "env.ForgetPoint"}
 IsKeyCtor(ev)  == ev.op \in {"key.NewPrivate", "key.NewPrivateFromScalar", "key.NewPublic", "key.NewPublicFromPoint",
-                              "skey.New", "skey.FromECDSA", "spub.New", "spub.FromPoint", "spub.FromECDSA"}
+                              "skey.New", "skey.FromECDSA", "spub.New", "spub.FromPoint", "spub.FromECDSA", "key.Recover", "key.ParseASN1"}
 
 (* a step is well behaved: failure => frame; caller actions and everything that is not a key constructor leave keys alone *)
 StepOK(st, ev) ==
